@@ -100,19 +100,20 @@ type WConfig struct {
 
 // WDerive describes modifications applied to a built-in spec (C02/C09/C10/C11 families); see specs_test.go.
 type WDerive struct {
-	Builder   string   `json:"builder,omitempty"`
-	P         []int64  `json:"p,omitempty"`
-	InitPN    int64    `json:"init_pn,omitempty"`
-	PNLens    []int    `json:"pn_lens,omitempty"`
-	Token     string   `json:"token,omitempty"`
-	SrcCIDLen int      `json:"src_cid_len,omitempty"`
-	DstCIDLen int      `json:"dst_cid_len,omitempty"`
-	UDPMin    int      `json:"udp_min,omitempty"`
-	Suppress  []uint64 `json:"suppress,omitempty"`
-	Shuffle   int      `json:"shuffle,omitempty"` // 0 keep, 1 on, 2 off
-	PadCH     int      `json:"pad_ch,omitempty"`
-	TPs       string   `json:"tps,omitempty"`
-	Plans     []int    `json:"plans,omitempty"` // InitialPackets: pairs (CryptoLength, PacketSize) per datagram
+	Builder       string   `json:"builder,omitempty"`
+	P             []int64  `json:"p,omitempty"`
+	InitPN        int64    `json:"init_pn,omitempty"`
+	PNLens        []int    `json:"pn_lens,omitempty"`
+	Token         string   `json:"token,omitempty"`
+	SrcCIDLen     int      `json:"src_cid_len,omitempty"`
+	DstCIDLen     int      `json:"dst_cid_len,omitempty"`
+	UDPMin        int      `json:"udp_min,omitempty"`
+	Suppress      []uint64 `json:"suppress,omitempty"`
+	Shuffle       int      `json:"shuffle,omitempty"` // 0 keep, 1 on, 2 off
+	PadCH         int      `json:"pad_ch,omitempty"`
+	TPs           string   `json:"tps,omitempty"`
+	Plans         []int    `json:"plans,omitempty"`          // InitialPackets: pairs (CryptoLength, PacketSize) per datagram
+	DupSuppressed uint64   `json:"dup_suppressed,omitempty"` // a private-use parameter listed several times in the spec and suppressed
 }
 
 // ---------------------------------------------------------------- router
